@@ -205,4 +205,57 @@ class JobDeepcopy(FSContract):
         ex.oblige(self.oname("frame:the_original_is_unchanged"), z3.BoolVal(set(job.fields) == set(before) and all(job.fields[k] is before[k] for k in before)))
 
 
-CONTRACTS = [JobGetstate(), JobSetstate(), JobDeepcopy()]
+class JobCopy(FSContract):
+    """copy.copy(job): the shallow copy shares the state point object with the original -- which therefore has to exist afterwards also
+    for a handle that was lazy (defect F28: it was instantiated for the copy only)"""
+    target = f"{JOB}.Job.__copy__"
+    properties = ("C03", "C04")
+    inline = GETTERS + (f"{JOB}.Job.__getstate__", f"{JOB}.Job.__setstate__")
+    callees = {f"{JOB}.Job.statepoint": stub_statepoint_getter}
+
+    def make_ctx(self, case):
+        ctx = super().make_ctx(case)
+        from threading import RLock
+        ctx.externals[RLock] = lambda interp: RLockStub()
+        return ctx
+
+    def setup(self, interp, case):
+        ex, ctx = interp.ex, interp.ctx
+        ctx.fs_init(ex)
+        proj = mk_project(ex)
+        job = mk_job(interp, proj, "me")
+        job.fields["_lock"] = RLockStub()
+
+        class SpOf(dict):
+            def __missing__(s, key):
+                return job.sp
+        ctx.ghost["sp_of"] = SpOf()
+        return [job], {}, {"job": job, "before": fields_snapshot(job)}
+
+    def post(self, interp, case, pre, outcome):
+        ex, ctx = interp.ex, interp.ctx
+        job, before = pre["job"], pre["before"]
+        ex.oblige(self.oname("frame:no_file_system_effect"), ctx.fs.eq(ctx.fs0))
+        if outcome[0] != "return":
+            ex.oblige(self.oname("raises:nothing_of_its_own"), False, note=repr(outcome[1])[:200])
+            return
+        c = outcome[1]
+        isnew = isinstance(c, Obj) and c is not job and c.cls is job.cls
+        ex.oblige(self.oname("ensures:the_result_is_a_new_Job"), z3.BoolVal(isnew))
+        if not isnew:
+            return
+        sd = job.fields.get("_statepoint")
+        shared = isinstance(sd, Obj) and c.fields.get("_statepoint") is sd and job.fields.get("_statepoint_requires_init") is False and c.fields.get("_statepoint_requires_init") is False
+        ex.oblige(self.oname("ensures:the_original's_state_point_object_exists_and_is_shared_with_the_copy"), z3.BoolVal(bool(shared)))
+        if shared:
+            jl = sd.fields.get("_jobs")
+            ex.oblige(self.oname("ensures:the_state_point_object_lists_the_original_and_the_copy_(an_id_change_reaches_both)"),
+                      z3.BoolVal(isinstance(jl, list) and any(x is job for x in jl) and any(x is c for x in jl)))
+        same = all(k in c.fields and (c.fields[k] is job.fields[k]) for k in job.fields if k != "_lock") and set(c.fields) == set(job.fields)
+        ex.oblige(self.oname("ensures:every_other_attribute_is_shared_by_identity"), z3.BoolVal(bool(same)), note=repr(sorted(set(c.fields) ^ set(job.fields))))
+        ex.oblige(self.oname("ensures:the_copy_has_a_lock_of_its_own"), z3.BoolVal(isinstance(c.fields.get("_lock"), RLockStub) and c.fields["_lock"] is not job.fields["_lock"]))
+        keep = [k for k in before if k not in ("_statepoint", "_statepoint_requires_init")]
+        ex.oblige(self.oname("frame:the_original_keeps_its_other_attributes"), z3.BoolVal(all(job.fields[k] is before[k] for k in keep)))
+
+
+CONTRACTS = [JobGetstate(), JobSetstate(), JobDeepcopy(), JobCopy()]
